@@ -504,8 +504,9 @@ func (d *Datastore) TransactionCancel(ctx context.Context, transactionId string)
 
 func loadIntendedStoreHighestPrio(ctx context.Context, tscc tree.TreeCacheClient, r *tree.RootEntry, pathKeySet *tree.PathSet, skipIntents []string) error {
 
-	// Get all entries of the already existing intent
-	cacheEntries := tscc.ReadCurrentUpdatesHighestPriorities(ctx, pathKeySet.GetPaths(), 2)
+	// Get the highest priority entries of the involved paths. All the transactions intents might rank above
+	// the best remaining entry, so one more priority then intents in the transaction needs to be loaded.
+	cacheEntries := tscc.ReadCurrentUpdatesHighestPriorities(ctx, pathKeySet.GetPaths(), uint64(len(skipIntents)+1))
 
 	flags := tree.NewUpdateInsertFlags()
 
